@@ -41,6 +41,7 @@ import CoreDhcp.Props.GenStart
 import CoreDhcp.Props.GenStorage
 import CoreDhcp.Props.GenEthernet
 import CoreDhcp.Props.GenServeLoop
+import CoreDhcp.Props.GenFileSetup
 open CoreDhcp
 #print axioms C20_offset_exact
 #print axioms C20_offset_symm
@@ -399,3 +400,16 @@ open CoreDhcp
 #print axioms SERVE_no_two_owners_gen
 #print axioms SERVE_no_two_owners_apart
 #print axioms SERVE_read_into_unshared
+#print axioms GEN_filesetup_setup_eq
+#print axioms GEN_filesetup_refresh_eq
+#print axioms GEN_filesetup_reg_eq
+#print axioms FILESETUP_watches_the_configured_name
+#print axioms FILESETUP_every_event_reloads
+#print axioms FILESETUP_failed_reload_keeps_watching
+#print axioms FILESETUP_serves_own_table
+#print axioms FILESETUP_no_autorefresh_no_watcher
+#print axioms FILESETUP_initial_load_error_aborts
+#print axioms FILESETUP_refresh_is_load
+#print axioms FILESETUP_later_good_version_picked_up
+#print axioms FILESETUP_replaced_file_is_watched_again
+#print axioms FILESETUP_watch_survives_replacements
